@@ -93,6 +93,12 @@ func VerifC15_Known() {
 		verifrt.Reach("provision")
 		verifrt.Assert(e1 == nil && e2 == nil, "acceptable configured CRLs provision in every fetch mode")
 		verifrt.Assert(revoked(s1) && revoked(s2), "configured CRLs are in force when provisioning returns")
+		for round := 0; round < 2; round++ {
+			sn := sym("sn")
+			crlrepository.VerifSetServer(urlB, true, crlrepository.VerifNewCRL("Bn", "CN=I1", sn))
+			c.crlRepository.UpdateCRLs()
+			verifrt.Assert(revoked(sn), "a configured CRL is refreshed by every later tick")
+		}
 	case 1: // CDP list: first load (active or background), then a periodic refresh to a new list
 		crlrepository.VerifSetServer(urlA, true, crlrepository.VerifNewCRL("A1", "CN=I1", s1))
 		cert := crlrepository.VerifCert("CN=I1", s2, urlA)
@@ -103,6 +109,13 @@ func VerifC15_Known() {
 		c.crlRepository.UpdateCRLs()
 		verifrt.Reach("cdp-refresh")
 		verifrt.Assert(revoked(s2) && !revoked(s1), "a later tick refreshes the distribution-point CRL")
+		// ... and so does every tick after it (a refreshed store still knows where its list comes from)
+		s3 := sym("s3")
+		verifrt.Assume(s3.Cmp(s1) != 0)
+		verifrt.Assume(s3.Cmp(s2) != 0)
+		crlrepository.VerifSetServer(urlA, true, crlrepository.VerifNewCRL("A3", "CN=I1", s3))
+		c.crlRepository.UpdateCRLs()
+		verifrt.Assert(revoked(s3) && !revoked(s2), "the tick after a refresh refreshes again")
 	case 2: // two locations, the refresh of one fails: the other one and the next tick still work
 		crlrepository.VerifSetServer(urlA, true, crlrepository.VerifNewCRL("A1", "CN=I1", s1))
 		crlrepository.VerifSetServer(urlB, true, crlrepository.VerifNewCRL("B1", "CN=I2", s1))
